@@ -117,7 +117,7 @@ Fixpoint find_close (d : rune) (p : list rune) : option (list rune * list rune) 
   | _ => None
   end.
 
-(* result: (text, rest, used_collating) *)
+(* result: (text, rest, rejected: a collating symbol / equivalence class that is not a single character) *)
 Fixpoint bloop (fuel : nat) (p : list rune) : option (list rune * list rune * bool) :=
   match fuel with
   | O => None
@@ -135,7 +135,15 @@ Fixpoint bloop (fuel : nat) (p : list rune) : option (list rune * list rune * bo
       | d :: p'' =>
         if memb d [46; 61; 58] then
           match find_close d p'' with
-          | Some (inside, rest) => cont ([91; d] ++ inside ++ [d; 93]) rest (negb (d =? 58))
+          | Some (inside, rest) =>
+            if d =? 58 then cont ([91; d] ++ inside ++ [d; 93]) rest false
+            else
+              (* a collating symbol or an equivalence class: a single character stands for itself, anything else is rejected *)
+              match inside with
+              | [x] => if x =? RuneError then cont [] rest true
+                       else cont (if esc_in_bracket x then [92; x] else [x]) rest false
+              | _ => cont [] rest true
+              end
           | None => cont [92; 91] p' false
           end
         else cont [92; 91] p' false
@@ -186,7 +194,7 @@ Fixpoint citems (fuel : nat) (greedy : bool) (p : list rune) : cres (list (ritem
       | None => if memb 93 p2 then CUnmodelled   (* Go may close the class where compile did not *)
                 else CErr
       | Some (t, rest, coll) =>
-        if coll then CUnmodelled else
+        if coll then CErr else
         let body := lead ++ t in
         match go_class (2 * S (length body)) true body with
         | None => CErr
